@@ -278,12 +278,29 @@ func countPreemptions(pts []verifsched.Point, n int) int {
 // Level-1 subtrees are sharded over the worker processes; the root execution is counted by
 // shard 0 only.
 func exploreScenario(c *ev.Ctx, sc *Scenario, maxBound int) exploreStats {
+	return exploreScenarioDL(c, sc, maxBound, c.Deadline)
+}
+
+// scenarioDeadline splits what is left of the worker's time budget evenly over the scenarios
+// still to run, so that a cap cuts every scenario's highest bound rather than whole scenarios.
+func scenarioDeadline(c *ev.Ctx, i, n int) time.Time {
+	if c.Deadline.IsZero() {
+		return c.Deadline
+	}
+	left := time.Until(c.Deadline)
+	if left < 0 {
+		left = 0
+	}
+	return time.Now().Add(left / time.Duration(n-i))
+}
+
+func exploreScenarioDL(c *ev.Ctx, sc *Scenario, maxBound int, dl time.Time) exploreStats {
 	var total exploreStats
 	total.BoundDone = -1
 	failed := map[string]bool{}
 	for b := 0; b <= maxBound; b++ {
 		st := exploreStats{}
-		e := &explorer{c: c, sc: sc, bound: b, st: &st, failed: failed, dl: c.Deadline}
+		e := &explorer{c: c, sc: sc, bound: b, st: &st, failed: failed, dl: dl}
 		if !noPrune {
 			e.visited = map[uint64]int{}
 		}
@@ -295,6 +312,13 @@ func exploreScenario(c *ev.Ctx, sc *Scenario, maxBound int) exploreStats {
 			// lower bounds are re-explored by the next iteration; run them only to find the
 			// counterexample with the fewest preemptions first
 			e.explore(nil, 0, nil)
+			if st.CapHit {
+				total = st
+				total.BoundDone = b - 1
+				break
+			}
+			total = st
+			total.BoundDone = b
 			hard := false
 			for k := range failed {
 				if strings.HasPrefix(k, sc.Name+": ") {
@@ -325,6 +349,7 @@ func exploreScenario(c *ev.Ctx, sc *Scenario, maxBound int) exploreStats {
 	c.Add("transitions", total.Transitions)
 	c.Max("max_choice_points_"+sc.Name, int64(total.MaxPoints))
 	c.Max("max_threads", int64(total.MaxThreads))
+	c.Max("negbound_"+sc.Name, int64(10-total.BoundDone)) // merged by max => min bound over shards
 	if total.CapHit {
 		c.Flag("exhaustive_within_bound", false)
 		c.Note("cap_"+sc.Name, "time cap hit")
@@ -357,6 +382,18 @@ func replayScenario(c *ev.Ctx, scs []*Scenario) {
 		return
 	}
 	c.Machinery("unknown scenario %q", k.Scenario)
+}
+
+// boundsCompleted turns the merged "negbound_" maxima into {scenario: bound completed by every shard}.
+func boundsCompleted(p *ev.Partial) map[string]int64 {
+	out := map[string]int64{}
+	for k, v := range p.Maxes {
+		if strings.HasPrefix(k, "negbound_") {
+			out[strings.TrimPrefix(k, "negbound_")] = 10 - v
+			delete(p.Maxes, k)
+		}
+	}
+	return out
 }
 
 // ---- explorer self-test: a lost update must be found at bound 1, a locked one must pass -------
